@@ -11,6 +11,7 @@ namespace Morfuse.Sched
 structure Pool where
   ids : List Nat
   next : Nat
+  deriving DecidableEq
 
 inductive POp
   | new
